@@ -774,7 +774,14 @@ func (node *CallGraphStage) unsplit(lookup *TypeLookup) error {
 		})
 	}
 	node.Outputs.Exp = e
-	for k, binding := range node.Inputs {
+	// Iterate in a fixed order so that the list of errors is deterministic.
+	inputKeys := make([]string, 0, len(node.Inputs))
+	for k := range node.Inputs {
+		inputKeys = append(inputKeys, k)
+	}
+	sort.Strings(inputKeys)
+	for _, k := range inputKeys {
+		binding := node.Inputs[k]
 		// Ensure inputs can be scanned for refs, and also that their
 		// types are cached.  Otherwise, at runtime mrp may end up trying to cache
 		// the types concurrently.
